@@ -35,7 +35,7 @@ ASSUMPTIONS = [
     "generated commands are deterministic functions of declared inputs and dependency outputs (the property's premise)",
 ]
 
-FAMILIES_QUICK = [("edits", 12), ("alias", 8), ("shift", 6), ("tamper", 8), ("taint", 3), ("disabled", 4), ("nocache", 3)]
+FAMILIES_QUICK = [("edits", 12), ("alias", 8), ("shift", 6), ("tamper", 6), ("wipe", 4), ("taint", 3), ("disabled", 4), ("nocache", 3)]
 FAMILIES_THOROUGH = [("edits", 200), ("alias", 120), ("shift", 80), ("tamper", 120), ("taint", 40), ("disabled", 60), ("nocache", 40)]
 
 
